@@ -72,7 +72,7 @@ def probe_query(Qx, probe, t=None):
     if probe == "interval":
         return Qx.from_(t).select(t.pcol + r["Interval"](days=3))
     if probe == "json-value":
-        return Qx.from_(t).select(t.pcol).where(t.j == {"k": "it's"})
+        return Qx.from_(t).select(t.pcol).where(t.j == {"k": "it's \"q\" back\\slash \u00e9"})
     if probe == "string-backslash":
         return Qx.from_(t).select(t.pcol).where(t.s == "a\\b")
     if probe == "set-operand":
@@ -128,6 +128,12 @@ def cases(tier, seed, shard, nshards):
                         k += 1
                         if k % nshards == shard:
                             yield {"k": "probe", "d": d, "probe": probe, "chain": chain, "cls": cls, "mode": mode}
+    for d in DIALECT_CLASSES:
+        for value in TWO_POS_VALUES:
+            for stmt in ("select", "update", "insert", "upsert"):
+                k += 1
+                if k % nshards == shard:
+                    yield {"k": "two-positions", "d": d, "value": value, "stmt": stmt}
     for d in DIALECT_CLASSES:
         for probe in PROBES:
             for maker in ("Table", "Tables-name", "Tables-pair", "Tables-many", "Table-query_cls"):
@@ -632,7 +638,49 @@ def run_shortcut(case, mon):
     mon.nontrivial(case)
 
 
+TWO_POS_VALUES = {
+    "json-dict": {"mk77": "it's \"q\" back\\slash \u00e9 \n"},
+    "string": "mk77 it's back\\slash \"dq\"",
+    "json-nested": {"mk77": {"k": ["a\\b", "c'd"]}},
+}
+
+
+def run_two_positions(case, mon):
+    """One value at several positions of one statement (select list and SET use the dialect's value wrapper, criteria / rows /
+    function arguments the generic one): it is written the same way everywhere."""
+    r = R()
+    d = case["d"]
+    Q = r[d]
+    fam = DIALECT_OF[d] if d != "Query" else "generic"
+    t = r["Table"]("tprobe")
+    v = TWO_POS_VALUES[case["value"]]
+    stmts = {
+        "select": lambda: Q.from_(t).select(t.pcol, r["ValueWrapper"](v) if isinstance(v, str) else v, r["fn.Coalesce"](t.j, v)).where(t.j == v).where(t.k.isin([v])),
+        "update": lambda: Q.update(t).set(t.j, v).set(t.k, r["fn.Coalesce"](t.k, v)).where(t.j != v),
+        "insert": lambda: Q.into(t).insert(1, v).insert(2, v),
+        "upsert": lambda: Q.into(t).insert(1, v).on_conflict("id").do_update("j", v),
+    }
+    try:
+        sql = stmts[case["stmt"]]().get_sql(contexts()[d])
+    except Exception as e:
+        mon.count("unbuildable")
+        mon.add("unbuildable", "two-positions:%s:%s" % (case["stmt"], type(e).__name__))
+        return
+    lits = [tk.text for tk in tokenize(sql, d) if tk.kind == "STR" and "mk77" in tk.text]
+    mon.count("two_position_statements")
+    if len(lits) < 2:
+        mon.inconc("two-positions: fewer than two literals found in %r" % sql[:200])
+        return
+    if len(set(lits)) != 1:
+        mon.violation("same-value-two-spellings:%s:%s:%s" % (case["value"], case["stmt"], fam), "%s: one value is written in %d different ways in one statement: %r" % (
+            d, len(set(lits)), sql[:300]))
+        return
+    mon.nontrivial(case)
+
+
 def run_case(case, mon):
+    if case["k"] == "two-positions":
+        return run_two_positions(case, mon)
     if case["k"] == "shortcut":
         return run_shortcut(case, mon)
     {"probe": run_probe, "neutral": run_neutral, "hook": run_hook, "term": run_term}[case["k"]](case, mon)
